@@ -1392,13 +1392,20 @@ class ThreadsafeForwardingResult(TestResult):
         self._test_start = self._now()
         super().startTest(test)
 
+    def stopTest(self, test):
+        # Tags changed after the outcome was forwarded are local to the
+        # finished test: they must not leak into later tests.
+        self._test_tags = set(), set()
+        super().stopTest(test)
+
     def wasSuccessful(self):
         return self.result.wasSuccessful()
 
     def tags(self, new_tags, gone_tags):
         """See `TestResult`."""
         super().tags(new_tags, gone_tags)
-        if self._test_start is not None:
+        if self._tags.parent is not None:
+            # Between startTest and stopTest: local to the current test.
             self._test_tags = _merge_tags(self._test_tags, (new_tags, gone_tags))
         else:
             self._global_tags = _merge_tags(self._global_tags, (new_tags, gone_tags))
